@@ -147,6 +147,8 @@ struct Side {
     /// bytes already in the Vec sink (reader forms 6/7)
     presink: usize,
     nops: usize,
+    /// host address of a local buffer that touches the guest target (its end or its start)
+    adj: Option<usize>,
 }
 
 #[derive(Clone, Debug, Default)]
@@ -169,7 +171,11 @@ fn local_aligned_for(entry: usize, la: usize, presink: usize, n: usize, writer: 
 
 fn do_write(w: &World, goff: usize, s: &Side, val: &[u8]) -> Result<(), String> {
     let n = val.len();
-    let buf = LocalBuf::new(n, s.la, |i| val[i]);
+    // SAFETY: an adjacent buffer lies in the arena's data pages next to the window.
+    let buf = match s.adj {
+        Some(a) => unsafe { LocalBuf::at(a, n, |i| val[i]) },
+        None => LocalBuf::new(n, s.la, |i| val[i]),
+    };
     match s.entry {
         0 | 1 | 2 | 6 | 7 | 8 => match w.layer {
             Layer::Slice => bytes_write(&w.vs(), goff, s.entry, val, &buf),
@@ -226,7 +232,11 @@ fn do_write(w: &World, goff: usize, s: &Side, val: &[u8]) -> Result<(), String> 
 
 fn do_read(w: &World, goff: usize, s: &Side, n: usize) -> Result<Vec<u8>, String> {
     use crate::world::bytes_of;
-    let mut buf = LocalBuf::new(n, s.la, |_| 0xEE);
+    // SAFETY: as in do_write.
+    let mut buf = match s.adj {
+        Some(a) => unsafe { LocalBuf::at(a, n, |_| 0xEE) },
+        None => LocalBuf::new(n, s.la, |_| 0xEE),
+    };
     match s.entry {
         0 | 1 | 2 | 6 | 7 | 8 => match w.layer {
             Layer::Slice => bytes_read(&w.vs(), goff, s.entry, n, &mut buf, s.presink),
@@ -348,6 +358,75 @@ where
     }
 }
 
+
+/// Atomic accesses around the seam of two touching regions: an object that does not lie inside
+/// the region of its first byte cannot be one access and must be refused, leaving memory alone;
+/// one that fits and is aligned is exactly one reference of its width.
+fn seam_probe() {
+    let c = cx();
+    let s1 = [4096usize, 4100, 4092, 4098, 8][c.a(5) as usize];
+    let base = 0x20_0000u64;
+    let gm = in_mode(Mode::Setup, || GuestMemoryMmap::<()>::from_ranges(&[(GuestAddress(base), s1), (GuestAddress(base + s1 as u64), 4096)]).expect("guest memory"));
+    let h1 = gm.get_host_address(GuestAddress(base)).unwrap() as usize;
+    let h2 = gm.get_host_address(GuestAddress(base + s1 as u64)).unwrap() as usize;
+    cx().add_range(h1, s1.div_ceil(4096) * 4096, 5, true);
+    cx().add_range(h2, 4096, 6, true);
+    let fill: Vec<u8> = (0..16).map(|i| 0xC0 + i as u8).collect();
+    for _ in 0..3 {
+        let width = [2usize, 4, 8][cx().a(3) as usize];
+        // offset relative to the seam: the object starts `back` bytes before it
+        let back = cx().a(width as u32 + 2) as usize;
+        if back > s1 {
+            continue;
+        }
+        let addr = base + (s1 - back) as u64;
+        let store = cx().a(2) == 0;
+        in_mode(Mode::Setup, || {
+            raw_write((h1 + s1 - back.min(8).min(s1)) as *mut u8, &fill[..back.min(8).min(s1)]);
+            raw_write(h2 as *mut u8, &fill[8..16]);
+        });
+        let before: Vec<u8> = raw_read((h1 + s1 - back.min(8).min(s1)) as *mut u8, back.min(8).min(s1)).into_iter().chain(raw_read(h2 as *mut u8, 8)).collect();
+        let host = if back == 0 { h2 } else { h1 + s1 - back };
+        let fits = back == 0 || back >= width;
+        let aligned = host % width == 0;
+        let ev0 = cx().events.len();
+        cx().mode = Mode::Actor;
+        let r = catch(|| match (store, width) {
+            (true, 2) => gm.store(0x1122u16, GuestAddress(addr), Ordering::SeqCst).map_err(es),
+            (true, 4) => gm.store(0x1122_3344u32, GuestAddress(addr), Ordering::SeqCst).map_err(es),
+            (true, _) => gm.store(0x1122_3344_5566_7788u64, GuestAddress(addr), Ordering::SeqCst).map_err(es),
+            (false, 2) => gm.load::<u16>(GuestAddress(addr), Ordering::SeqCst).map(|_| ()).map_err(es),
+            (false, 4) => gm.load::<u32>(GuestAddress(addr), Ordering::SeqCst).map(|_| ()).map_err(es),
+            (false, _) => gm.load::<u64>(GuestAddress(addr), Ordering::SeqCst).map(|_| ()).map_err(es),
+        });
+        cx().mode = Mode::Setup;
+        let evs: Vec<String> = cx().events[ev0..].iter().filter(|e| matches!(e.kind, EvKind::Read | EvKind::Write | EvKind::Bulk | EvKind::BulkByte | EvKind::Copy | EvKind::Touch)).map(fmt_ev).collect();
+        let after: Vec<u8> = raw_read((h1 + s1 - back.min(8).min(s1)) as *mut u8, back.min(8).min(s1)).into_iter().chain(raw_read(h2 as *mut u8, 8)).collect();
+        let what = format!("atomic {} of {} bytes at {:#x}, {} byte(s) before the seam of regions [{:#x},+{}) and [{:#x},+4096)", if store { "store" } else { "load" }, width, addr, back, base, s1, base + s1 as u64);
+        match r {
+            OpOutcome::Ok(Ok(())) if fits && aligned => {
+                cx().count("probe.atomic_next_to_a_region_seam_accepted");
+                if evs.len() != 1 || !evs[0].contains("ref") && !evs[0].contains("touch") {
+                    cx().violate("C06", "C06/shape", "atomic access next to a region seam".into(), format!("{}: expected exactly one reference, the seams saw {:?}", what, evs));
+                }
+            }
+            OpOutcome::Ok(Ok(())) => cx().violate("C06", "C06/misaligned-accepted", format!("atomic {} across a region seam or misaligned accepted", if store { "store" } else { "load" }), format!("{}: accepted although the object {}; accesses seen: {:?}", what, if !fits { "does not lie inside the region of its first byte" } else { "is misaligned" }, evs)),
+            OpOutcome::Ok(Err(_)) if fits && aligned => cx().violate("C06", "C06/error", "aligned atomic access refused next to a region seam".into(), format!("{}: refused", what)),
+            OpOutcome::Ok(Err(_)) => {
+                cx().count("probe.atomic_across_a_region_seam_refused");
+                if after != before {
+                    cx().violate("C06", "C06/torn-write", "refused atomic store changed memory".into(), format!("{}: refused, but guest bytes changed from {:02x?} to {:02x?}", what, before, after));
+                }
+            }
+            OpOutcome::Panic(m) => cx().violate("C06", "C06/panic", "panic in an atomic access next to a region seam".into(), format!("{}: {}", what, m)),
+            OpOutcome::Sim(_) => {}
+        }
+    }
+    cx().remove_range(5);
+    cx().remove_range(6);
+    in_mode(Mode::Setup, || drop(gm));
+}
+
 pub struct Tear;
 pub static TEAR: Tear = Tear;
 
@@ -389,8 +468,20 @@ impl Scenario for Tear {
             5 | 6 | 7 => 8,
             _ => [3usize, 5, 6, 7][c.a(4) as usize],
         };
+        // now and then (slice layer, power-of-two lengths) one side's local buffer touches the target:
+        // Some((writer side?, after the target?))
+        let adjacency: Option<(bool, bool)> = if layer == Layer::Slice && pow2(n) && cx().a(6) == 0 { Some((cx().a(2) == 0, cx().a(2) == 0)) } else { None };
         // world
         let (world, base_res) = match layer {
+            Layer::Slice if adjacency.is_some() => {
+                // the window alone is guest memory; the bytes right before and after it are the
+                // caller's own (a host buffer may touch the guest range it is copied to or from)
+                let arena = Arena::get(2);
+                // SAFETY: inside the arena's data pages.
+                let win = unsafe { arena.data().add(512) };
+                cx().add_range(win as usize, WIN, 0, true);
+                (World { layer, arena: Some(arena), gm: None, win, rid: 0, rbase: 0 }, 0)
+            }
             Layer::Slice => {
                 let arena = Arena::get(2);
                 let res = cx().a(8) as usize;
@@ -423,10 +514,10 @@ impl Scenario for Tear {
             let la = if c.a(3) == 0 { 1 + c.a(7) as usize } else { 0 };
             let presink = if c.a(4) == 0 { 1 + c.a(11) as usize } else { [0usize, 8, 16][c.a(3) as usize] };
             let _ = writer;
-            Side { entry, la, presink, nops: 1 + c.a(3) as usize }
+            Side { entry, la, presink, nops: 1 + c.a(3) as usize, adj: None }
         };
-        let ws = gen_side(true);
-        let rs = gen_side(false);
+        let mut ws = gen_side(true);
+        let mut rs = gen_side(false);
         // target offset: aligned to n in host terms (demand class) or deliberately not (control)
         let want_aligned = pow2(n) && (cx().a(5) != 0 || ws.entry == 11 || rs.entry == 11);
         let goff = {
@@ -441,6 +532,18 @@ impl Scenario for Tear {
             }
             o
         };
+        let goff = match adjacency {
+            Some((_, true)) => WIN - n,
+            Some((_, false)) => 0,
+            None => goff,
+        };
+        if let Some((writer_side, after)) = adjacency {
+            let a = if after { world.win as usize + WIN } else { world.win as usize - n };
+            let side = if writer_side { &mut ws } else { &mut rs };
+            side.adj = Some(a);
+            side.la = a % 8;
+            cx().count("probe.local_buffer_touches_the_guest_target");
+        }
         let host = world.win as usize + goff;
         let guest_aligned = pow2(n) && host % n == 0;
         let init: Vec<u8> = (0..n).map(val_i).collect();
@@ -642,6 +745,9 @@ impl Scenario for Tear {
                 Layer::Region => ordering_probe(world.region(), MemoryRegionAddress(o4 as u64), "region"),
                 Layer::Gm => ordering_probe(world.gm.as_ref().unwrap(), GuestAddress(GBASE + o4 as u64), "guest-memory"),
             }
+        }
+        if cx().a(8) == 0 && cx().violations.is_empty() {
+            seam_probe();
         }
         // tear down
         cx().mode = Mode::Setup;
